@@ -49,7 +49,7 @@ for pid in sorted(T):
 na = [{"property_id": pid, "reason": "check not registered yet in this commit (implementation in progress; see DESIGN.md)"} for pid in sorted(T) if pid not in claimed]
 m = {
  "version": 1,
- "setup_cmd": "bash -c 'export GOFLAGS=-mod=mod GOPROXY=off GOSUMDB=off GOTOOLCHAIN=local; mkdir -p .build run evidence replay && go build -tags verif -o .build/vworker ./cmd/vworker'",
+ "setup_cmd": "bash -c 'export GOFLAGS=-mod=mod GOPROXY=off GOSUMDB=off GOTOOLCHAIN=local; mkdir -p .build run evidence replay && go build -tags verif -o .build/vworker ./cmd/vworker && go build -race -tags verif -o .build/vworker-race ./cmd/vworker'",
  "hooks": {
    "guard": "verif",
    "enable": "go build -tags verif (the check script builds cmd/vworker, which imports /repo through a replace directive, with this tag)",
